@@ -402,10 +402,77 @@ def r5_precheck_first(ctx, res):
         res.find(key, pc.module.loc(pc.node), '_precheck no longer refuses exports whose lexicons share identifiers')
 
 
+def r6_proposed_ili_marker(ctx, res):
+    """writer/reader agreement on proposed ILIs: the importer stores a proposed_ilis row for every synset with ili="in"
+    (with or without a definition - see the binding table), so the exporter must reconstruct ili="in" from the *existence*
+    of that row, not from the presence of a definition text."""
+    f = ctx.repo.func('_export', '_export_synsets')
+    assigns = [n for n in walk_no_nested(f.node) if isinstance(n, ast.Assign) and norm(n.targets[0]) == 'ili'
+               and isinstance(n.value, ast.Constant) and n.value.value == 'in']
+    key = 'proposed-ili-marker'
+    res.inst(key, f.module.loc(f.node), f'{len(assigns)} assignments ili = "in"')
+    if not assigns:
+        res.find(key, f.module.loc(f.node), "_export_synsets never reconstructs ili=\"in\": proposed ILIs are exported as synsets without ILI")
+        return
+    # importer side: the row is inserted under Synset.ili == 'in' alone
+    from .c01 import computed_bindings, ROW_GUARD
+    guards = computed_bindings(ctx).get(('proposed_ilis', ROW_GUARD), set())
+    imp_ok = any("Synset.ili == const:'in'" in g for g in guards) and not any('ili_definition' in x for g in guards for x in g)
+    res.inst(key + ':importer', 'wn/_add.py', f'{sorted(guards)}')
+    if not imp_ok:
+        res.find(key + ':importer', 'wn/_add.py', f'the importer no longer stores a proposed_ilis row for exactly the synsets with ili="in": {sorted(guards)}')
+    for a in assigns:
+        test = None
+        for p in parents(a):
+            if isinstance(p, ast.If) and any(a is x for x in p.body):
+                test = p.test
+                break
+        k2 = f'{key}:{norm(test)[:50] if test is not None else "unguarded"}'
+        res.inst(k2, f.module.loc(a), 'guard of the marker')
+        if test is None:
+            res.find(k2, f.module.loc(a), 'ili = "in" is assigned unconditionally')
+            continue
+        row_based = False
+        defn_based = False
+        for n in ast.walk(test):
+            if isinstance(n, ast.Call):
+                if _reaches(ctx, f, n, 'find_proposed_ilis') and not _reaches(ctx, f, n, None, via='_export_ili_definition'):
+                    row_based = True
+            if isinstance(n, ast.Name):
+                for s2 in binding_sites(f.node, n.id):
+                    if s2[0] == 'assign' and isinstance(s2[1], ast.Call):
+                        if norm(s2[1].func) == '_export_ili_definition':
+                            defn_based = True
+                        elif _reaches(ctx, f, s2[1], 'find_proposed_ilis'):
+                            row_based = True
+        if defn_based or not row_based:
+            res.find(k2, f.module.loc(a),
+                     f'ili = "in" is reconstructed under `{norm(test)}`, i.e. from the presence of an ILI definition text, while the '
+                     f'importer records a proposed ILI by the existence of the proposed_ilis row (definition optional): a synset '
+                     f'<Synset ili="in"> without <ILIDefinition> is exported with ili="" and re-imported without its proposed ILI')
+
+
+def _reaches(ctx, f, call, target, via=None, depth=0):
+    if isinstance(call.func, ast.Name) and call.func.id == 'next' and call.args and isinstance(call.args[0], ast.Call):
+        return _reaches(ctx, f, call.args[0], target, via, depth)
+    cal = ctx.cg.resolve_call(f, call)
+    for c in cal:
+        if via is not None and c.name == via:
+            return True
+        if target is not None and c.name == target:
+            return True
+        if depth < 2 and c.module.short == '_export' and target is not None and via is None and c.name != '_export_ili_definition':
+            for n in walk_no_nested(c.node):
+                if isinstance(n, ast.Call) and _reaches(ctx, c, n, target, None, depth + 1):
+                    return True
+    return False
+
+
 RULES = [
     ('C03-R1', r1_coverage, 75),
     ('C03-R2', r2_guard_consistency, 3),
     ('C03-R3', r3_metadata_provenance, 9),
     ('C03-R4', r4_scoping, 12),
     ('C03-R5', r5_precheck_first, 3),
+    ('C03-R6', r6_proposed_ili_marker, 3),
 ]
